@@ -76,6 +76,14 @@ MUTANTS = [
     ("markup-drop-valid-name", "eyecite/find.py", "            if not is_valid_name(value):\n                continue\n", "", ["C19"]),
     ("pincited-drop-valid-name", "eyecite/find.py", "        if (value := getattr(citation.metadata, key, None))\n        and is_valid_name(value)\n",
      "        if (value := getattr(citation.metadata, key, None))\n", ["C19"]),
+    ("hs-no-char-widening", "eyecite/tokenizers.py", "(self.extractors[index], (char_start(start), char_end(end)))", "(self.extractors[index], (start, end))", ["C14"]),
+    ("hs-substring-rematch", "eyecite/tokenizers.py",
+     [("                m = extractor.compiled_regex.match(text, start)\n                if m is None or m.end() != end:", "                m = extractor.compiled_regex.match(text[start:end])\n                if m is None:"),
+      ("                yield extractor.get_token(m)\n\n    @property", "                yield extractor.get_token(m, offset=start)\n\n    @property")], None, ["C14"]),
+    ("hs-cache-only-invalid-error", "eyecite/tokenizers.py", "                    except hyperscan.error:", "                    except hyperscan.InvalidError:", ["C14"]),
+    ("hs-no-section-conversion", "eyecite/tokenizers.py", "                if long_chars:\n", "                if False:\n", ["C14"]),
+    ("hs-search-instead-of-match", "eyecite/tokenizers.py", "                m = extractor.compiled_regex.match(text, start)\n", "                m = extractor.compiled_regex.search(text, start)\n", ["C14"]),
+    ("hs-cache-no-fallback", "eyecite/tokenizers.py", "                    except hyperscan.error:\n", "                    except hyperscan.DatabaseVersionError:\n", ["C14"]),
 ]
 
 
